@@ -143,6 +143,9 @@ func (e *Exec) invokeMethod(st *State, fr *Frame, cc *ssa.CallCommon, recv *Valu
 	name := cc.Method.Name()
 	rt := cc.Value.Type()
 	if isNamed(rt, "reflect", "Type") {
+		if name == "AssignableTo" && e.InvokeHook != nil && e.InvokeHook(e, st, fr, cc, recv, args, k) {
+			return // a harness that knows both types decides assignability itself
+		}
 		e.reflectTypeMethod(st, fr, cc, recv, name, args, k)
 		return
 	}
